@@ -34,7 +34,7 @@ STRUCT_PROGRAMS = [
 def run(ctx):
     rnd = random.Random(ctx.seed)
     ctx.trusted += ["coq/Machine/Machine.v; tools/harness/h_interop.py (a user function wrapped by eager_propagate with nested list/tuple/dict/slice arguments; the user struct dtype `Pair` with a nested nullable field)"]
-    ctx.not_discharged += ["struct dtypes through the generic layout functions: naturality theorems of C11 (every re-indexing operator commutes with field projection) + correspondence; no separate theorem about _transmute's recursion"]
+    ctx.not_discharged += ["struct dtypes through the generic layout functions: naturality theorems (Ndx/LayoutFacts.v operators, Ndx/LayoutNatural.v public functions: each commutes with every field projection, outcome included) + correspondence; no separate theorem about _transmute's recursion"]
     ctx.static_build()
     c01.census_tie(ctx)
     scale = 1 if ctx.tier == "quick" else 10
